@@ -266,6 +266,16 @@ def run_sparse(case, acc, order):
                         Tchk = np.zeros_like(Tref)
                         Tchk[:, stored] = Tref[:, stored]
                         check_record(rec, Tchk, exp_set, None, bad, peak_unique, sparse=True)
+                    if not bad and unwhiten:
+                        # the convenience accessors agree with the record (default arguments)
+                        try:
+                            rec0 = m.get_template(t)
+                            ok1 = np.array_equal(m.get_template_channels(t), rec0.channel_ids)
+                            ok2 = np.array_equal(m.get_template_waveforms(t), rec0.template)
+                        except Exception:
+                            ok1 = ok2 = False
+                        if not (ok1 and ok2):
+                            bad.append(('accessors', 'disagree-with-record', 'same as get_template', [ok1, ok2]))
                     for attr, kind, exp, got in bad:
                         sig = '%s/sparse/%s/%s/%s' % (PROP, attr, kind,
                                                       'with-unused-or-zero' if special else 'plain')
@@ -384,6 +394,22 @@ def sparse_cases(ctx):
                 'tfeatures': 'absent', 'raw': False, 'nsw': 3, 'fill': ctx.seed,
                 'sparse_cols': [r for r, _ in rows], 'sparse_zero': [z for _, z in rows],
                 'sparse_neg': negs}
+        cases.append({'kind': 'sparse', 'spec': spec})
+    # tables with more stored columns than the 12-channel neighbourhood of dense storage: with sparse
+    # storage the stored channels are the channels, however many
+    nc = 16
+    base = [(c * 5) % nc for c in range(nc)]           # a scattered order of the 16 channels
+    rows = []
+    for k in (14, 16, 13):
+        for rot in range(3):
+            r = [base[(j + rot * 5) % nc] for j in range(k)]
+            rows.append((r + [-1] * (nc - k), None))
+    prof = [[int(x) for x in np.roll(np.arange(1, nc + 1), k * 3)] for k in range(len(rows))]
+    for wh in ('absent', 'mixing'):
+        spec = {'templates': 'sparse', 'geometry': 'grid', 'n_channels': nc, 'n_templates': len(rows),
+                'n_spikes': len(rows) + 2, 'whitening': wh, 'profile': prof, 'features': 'absent',
+                'tfeatures': 'absent', 'raw': False, 'nsw': 3, 'fill': ctx.seed,
+                'sparse_cols': [r for r, _ in rows], 'sparse_zero': [z for _, z in rows]}
         cases.append({'kind': 'sparse', 'spec': spec})
     return cases
 
